@@ -15,7 +15,7 @@ from symx.run import Check, Harness
 
 from checks.c06 import Gw, make_ezsp
 
-PENDING = (None, "nop", "getValue", "setConfigurationValue", "networkInit", "getNetworkParameters")
+PENDING = (None, "nop", "getValue", "setConfigurationValue", "networkInit", "getNetworkParameters", "callback")
 BASES = ("nop", "getValue", "getConfigurationValue", "stackStatusHandler", "incomingMessageHandler", "messageSentHandler",
          "version", "invalidCommand", "networkInit", "getNetworkParameters", "trustCenterJoinHandler", "readCounters")
 SUBST = (0x00, 0x01, 0x7F, 0x80, 0xFE, 0xFF)
